@@ -1136,7 +1136,11 @@ func (cx *Ctx) commaOkMisuse(ta *ssa.TypeAssert) string {
 	return ""
 }
 
-func checkC09(cx *Ctx, r *Report) {
+func checkC09(cx *Ctx, r *Report) { checkC09core(cx, r, true) }
+
+// checkC09core: the rules of C09; withBCE=false leaves out the compiler bounds-check facts (used when another
+// property borrows the nil / assertion / panic discipline).
+func checkC09core(cx *Ctx, r *Report, withBCE bool) {
 	w, fx := cx.W, cx.Fx
 	r.Clauses = []string{
 		"R-NIL: in all module code reachable from the 8 routed handlers, the per-request middleware and NewServiceProvider, every dereference (field access, load, method call through, nil-map write) of a value that may be nil - an optional element of a decoded XML object or storage-owned record, a key record returned by the two key getters, or anything such a value flows into through variables, parameters and results - is dominated by a nil test of the same access path (in the same function, at the call site, at the return site, or in an earlier step of the same validation chain), or covered by the machine-checked constructor invariant of registered service providers",
@@ -1294,7 +1298,46 @@ func checkC09(cx *Ctx, r *Report) {
 	cx.checkHTTPStatus(r, vf, fns)
 
 	// --- R-BCE ---------------------------------------------------------------------------------------
-	cx.checkBCE(r, vf.scope)
+	if withBCE {
+		cx.checkBCE(r, vf.scope)
+	}
+}
+
+// checkNoPanicOnRequestPaths: the nil / assertion / panic discipline of C09, restricted to the code the given
+// handlers reach: a request that makes the handler panic is not answered at all - for a conformant request that
+// is a refusal (C07), for a query it is no Success answer.
+func (cx *Ctx) checkNoPanicOnRequestPaths(r *Report, handlers ...string) {
+	w := cx.W
+	var fns []*ssa.Function
+	for _, k := range handlers {
+		if f := w.Func(k); f != nil {
+			fns = append(fns, f)
+		}
+	}
+	inScope := map[string]bool{}
+	for f := range w.scopeOf(fns...) {
+		inScope[w.FuncKey(f)] = true
+	}
+	tr := newReport("C09", "quick")
+	checkC09core(cx, tr, false)
+	n := 0
+	for _, o := range tr.Obl {
+		if o.Rule != "R-NIL" && o.Rule != "R-ASSERT" && o.Rule != "R-PANIC" {
+			continue
+		}
+		fk := o.Key
+		if i := strings.Index(fk, ":"); i >= 0 {
+			fk = fk[:i]
+		}
+		if !inScope[fk] {
+			continue
+		}
+		n++
+		if o.Verdict == "violation" {
+			r.Fail(o.Rule, o.Key, o.Pos, o.Detail+" (a conformant request taking this path is not accepted)")
+		}
+	}
+	r.Check(n > 0, "R-NIL", "#request-paths", "", fmt.Sprintf("%d nil / assertion / panic obligations on the request handlers' paths, none violated beyond those listed", n), "no obligation of the panic discipline found on the request handlers' paths")
 }
 
 // checkSPInvariant: ServiceProvider.Metadata is stored only by NewServiceProvider, whose success returns are
